@@ -501,7 +501,7 @@ IMPL_ONLY = {"bmod", "dmod", "hmod", "smod", "cnt", "scnt", "cont", "rt_cnt", "r
              "cl_deref", "cl_bits", "cl_ptr_eq", "allocs", "ndealloc", "dfree", "aux", "aux_bad", "er_heap", "dyn_deref",
              "off_borrow", "off_with", "bo_deref", "bo_from_ptr", "bo_with", "ft_heap", "ft_as_ptr", "second",
              "as_first", "as_second", "usz", "uosz", "unwrap", "word", "al_arc", "al_thin", "al_union", "msg", "leaked",
-             "deallocs", "stderr", "mk2"}
+             "deallocs", "stderr", "mk2", "x_eq", "x_ne", "x_ptr_eq", "x_variants", "x_cnt"}
 
 C05_FIELDS = {"st", "alloc", "dealloc", "sov", "aov", "hdr", "slice", "e0", "elast", "slen", "hwl_size", "hwl_align",
               "hwl_lenoff", "er_sov", "dyn_sov", "dyn_aov", "ext", "extpad", "pad", "pnf", "mk", "arr", "lenv"}
@@ -755,6 +755,14 @@ def monitor(case, impl, sh):
             fail("C12", "clone of the union is not the same tagged word / count did not move by one")
         if _i(impl, "usz") != WORD or _i(impl, "uosz") != WORD:
             fail("C12", "ArcUnion is %s bytes (Option: %s), must be one word" % (impl.get("usz"), impl.get("uosz")))
+        if "x_eq" in impl:
+            if impl.get("x_eq") != "0" or impl.get("x_ne") != "1":
+                fail("C12", "ArcUnion<T,T>: a First and a Second union over the same allocation compare equal (==: %s, !=: %s): "
+                            "two unions holding different variants must never compare equal" % (impl.get("x_eq"), impl.get("x_ne")))
+            if impl.get("x_ptr_eq") != "0":
+                fail("C12", "ArcUnion::ptr_eq says a First and a Second union are the same handle")
+            if impl.get("x_variants") != "1" or _i(impl, "x_cnt") != 2:
+                fail("C12", "variants/count of a First/Second pair over one allocation are wrong (variants ok: %s, count %s)" % (impl.get("x_variants"), impl.get("x_cnt")))
     return f
 
 
@@ -1028,9 +1036,9 @@ DEMANDS = {
 }
 
 
-def run_property(ctx, prop, module, assumptions):
+def run_property(ctx, prop, module, assumptions, extra_modules=()):
     ctx.assumptions = assumptions
-    ok, out = common.lean_obligations(ctx, module)
+    ok, out = common.lean_obligations(ctx, module, extra_modules)
     t0 = time.time()
     variants = THOROUGH_VARIANTS if ctx.thorough() else QUICK_VARIANTS
     density = THOROUGH_DENSITY if ctx.thorough() else {}
